@@ -620,6 +620,14 @@ def run(ctx):
            nontrivial=False, detail={"float32": f32})
     digits_helper_rule(ctx, "R3.digits-helper")
     unitcell_noise_rule(ctx, "R2.unitcell-noise-cutoff")
+    # coordinate records are ATOM and HETATM records, wherever the reader looks for them (models, atom lines, the single-model fallback)
+    rec_tests = [c for c in ast.walk(ctx.src(FILE).tree) if isinstance(c, ast.Call) and isinstance(c.func, ast.Attribute) and c.func.attr == "startswith"
+                 and c.args and any(isinstance(x, ast.Constant) and x.value in ("ATOM", "HETATM") for x in ast.walk(c.args[0]))]
+    bad_rec = [c for c in rec_tests if {x.value for x in ast.walk(c.args[0]) if isinstance(x, ast.Constant)} != {"ATOM", "HETATM"}]
+    ctx.ob("R1.hetero-records-are-atom-records", FILE, "<module>", f"{len(rec_tests)} record test(s) startswith(('ATOM', 'HETATM'))",
+           len(rec_tests) >= 2 and not bad_rec,
+           "a structure that consists of hetero atoms only (a ligand, a water box) has no ATOM record: a test for 'ATOM' alone finds no model "
+           "and no atoms in it", bad_rec[0].lineno if bad_rec else 1)
     W = Writer(ctx, setf, guards, consts, aparam, dtypes)
 
     # ---------------- ATOM / HETATM record --------------------------------
